@@ -468,6 +468,38 @@ func (r *runner) runTape(tape []uint64) (class string, detail string) {
 	}
 }
 
+// runSeedOnce runs one world from its seed in a fresh process and returns its violation class ("" if none).
+func (r *runner) runSeedOnce(idx uint64) string {
+	cmd := exec.Command(r.bin, "-prop", r.cfg.ID, "-tier", r.tier, "-seed", fmt.Sprint(r.seed), "-from", fmt.Sprint(idx), "-to", fmt.Sprint(idx+1), "-simd", r.simd, "-shrink", "0")
+	cmd.Env = workerEnv()
+	var stderr, stdout bytes.Buffer
+	cmd.Stderr = &stderr
+	cmd.Stdout = &stdout
+	done := make(chan error, 1)
+	cmd.Start()
+	go func() { done <- cmd.Wait() }()
+	select {
+	case err := <-done:
+		for _, line := range strings.Split(stdout.String(), "\n") {
+			if m := reEnd.FindStringSubmatch(line); m != nil {
+				if m[5] != "" {
+					var vv struct{ Class string }
+					json.Unmarshal([]byte(m[5]), &vv)
+					return vv.Class
+				}
+				return ""
+			}
+		}
+		if err != nil {
+			return r.cfg.ID + "/crash@" + crashSite(stderr.String())
+		}
+		return ""
+	case <-time.After(90 * time.Second):
+		cmd.Process.Kill()
+		return r.cfg.ID + "/hang"
+	}
+}
+
 func (r *runner) crashReplay(v *violation, budget int) {
 	tf := filepath.Join(verifDir, ".build", fmt.Sprintf("crash-%s-%d.tape", r.cfg.ID, v.Index))
 	cmd := exec.Command(r.bin, "-prop", r.cfg.ID, "-tier", r.tier, "-seed", fmt.Sprint(r.seed), "-from", fmt.Sprint(v.Index), "-to", fmt.Sprint(v.Index+1), "-tapeout", tf, "-simd", r.simd, "-shrink", "0")
@@ -486,6 +518,21 @@ func (r *runner) crashReplay(v *violation, budget int) {
 	}
 	cls, _ := r.runTape(tape)
 	if cls != v.Class {
+		// the recovered tape ends where the process died; if replaying it does not die the same way
+		// (ThreadSanitizer reports depend on its bounded access history), fall back to replaying the
+		// world from its seed in a fresh process, which is deterministic as well
+		if c2 := r.runSeedOnce(v.Index); c2 == v.Class {
+			rf := map[string]interface{}{"property": r.cfg.ID, "tier": r.tier, "flavour": r.build, "simd": r.simd, "verif_seed": r.seed, "world_index": v.Index, "tree_hash": r.tree,
+				"by_seed": true, "tape": tape, "violation": map[string]interface{}{"class": v.Class, "detail": v.Detail},
+				"decoded": []string{"(crash class replayed from its seed: the tape recovered up to the crash is attached for reference)"}}
+			name := filepath.Join(verifDir, "replays", fmt.Sprintf("%s-%d-%d-crash.json", r.cfg.ID, r.seed, v.Index))
+			jb, _ := json.MarshalIndent(rf, "", " ")
+			os.MkdirAll(filepath.Dir(name), 0o755)
+			os.WriteFile(name, jb, 0o644)
+			v.Replay = name
+			v.Confirm = "by_seed"
+			return
+		}
 		v.Confirm = fmt.Sprintf("crash did not reproduce from recovered tape (got %q)", cls)
 		return
 	}
@@ -545,9 +592,18 @@ func (r *runner) confirm(v *violation) bool {
 		return false
 	}
 	var rf struct {
-		Tape []uint64 `json:"tape"`
+		Tape   []uint64 `json:"tape"`
+		BySeed bool     `json:"by_seed"`
+		Index  uint64   `json:"world_index"`
 	}
 	json.Unmarshal(b, &rf)
+	if rf.BySeed {
+		if c := r.runSeedOnce(rf.Index); c == v.Class {
+			return true
+		}
+		v.Confirm = "seed replay in a fresh process did not reproduce"
+		return false
+	}
 	cls, _ := r.runTape(rf.Tape)
 	if cls == v.Class {
 		return true
@@ -987,6 +1043,24 @@ func cmdReplay(args []string) int {
 	}
 	if rf.Flavour == "" {
 		rf.Flavour = "native"
+	}
+	var bs struct {
+		BySeed bool `json:"by_seed"`
+	}
+	json.Unmarshal(b, &bs)
+	if bs.BySeed {
+		bin, th, _ := buildSim(rf.Flavour)
+		if rf.Simd == "" {
+			rf.Simd = "tape"
+		}
+		r := &runner{cfg: cfgs[rf.Property], tier: rf.Tier, seed: rf.Seed, bin: bin, build: rf.Flavour, simd: rf.Simd, tree: th}
+		c := r.runSeedOnce(rf.Index)
+		if c != "" {
+			fmt.Printf("replayed from seed: class %s\nVIOLATION property=%s replay=%s\n", c, rf.Property, args[0])
+			return 1
+		}
+		fmt.Println("replay: no violation")
+		return 0
 	}
 	if rf.Simd == "" {
 		rf.Simd = "tape"
